@@ -1,4 +1,9 @@
-// L2/L8: BoxedUint radix decoding with a precision (src/uint/boxed/encoding.rs, C17 / C16)
+// L2/L8: BoxedUint radix strings (src/uint/boxed/encoding.rs) -- C17 / C16
+// body (proved): BoxedUint::from_str_radix_with_precision_vartime (Ok <=> numeral with value < 2^bits_precision, result has
+//   nlimbs_for(bits_precision) limbs; Err(Precision) => numeral with value >= 2^bits_precision; other errors as in l2_encoding_radix),
+//   BoxedUint::to_string_radix_vartime. Over the contracts of l8_boxed_methods (zero_with_precision: stub, bits: body).
+// not mirrored: from_be_slice / from_le_slice (rchunks / zip), to_be_bytes / to_le_bytes (chunks_exact_mut / zip), from_be_hex (vec!, CtOption),
+//   from_str_radix_vartime + VecDecodeByLimb (Vec::push, `Vec -> Box<[Limb]>` into()).
 use vstd::prelude::*;
 use vstd::arithmetic::power::*;
 use vstd::arithmetic::power2::*;
@@ -12,7 +17,9 @@ use crate::l2_core::*;
 use crate::l7_boxed_div::*;
 use crate::l8_boxed_methods::*;
 use crate::l2_encoding_radix::*;
-use crate::l2_encoding_radix as encoding;
+use crate::l2_encoding_enc::*;
+// the code refers to the functions of src/uint/encoding.rs as `encoding::f`
+pub mod encoding { pub use crate::l2_encoding_radix::*; pub use crate::l2_encoding_enc::*; }
 verus! {
 
 //@@ fn src/uint/boxed/encoding.rs | impl BoxedUint | from_str_radix_with_precision_vartime | body | props C17 C16 C11
@@ -23,18 +30,29 @@ pub fn from_str_radix_with_precision_vartime(
         bits_precision: u32,
     ) -> (ret__: Result<Self, DecodeError>)
 //@+
-    requires 2 <= radix <= 36
+    requires 2 <= radix <= 36, bits_precision <= 0xFFFF_FFC0   // larger: `bits_precision()` of the 2^26-limb value overflows u32
     ensures match ret__ {
-        Ok(u) => numeral_val(src.spec_bytes(), radix as int) == Some(u.v() as nat) && u.v() < p2(bits_precision as nat) && u.nl() == nlimbs_for(bits_precision),
-        Err(DecodeError::Precision) => is_numeral(src.spec_bytes(), radix as int)
-            && seg_val(numeral_body(src.spec_bytes()), 0, numeral_body(src.spec_bytes()).len() as int, radix as int) >= p2(bits_precision as nat),
-        Err(e) => decode_result(src.spec_bytes(), radix as int, Seq::empty(), nlimbs_for(bits_precision), Err(e)),
-    }
+            Ok(u) => numeral_val(src.spec_bytes(), radix as int) == Some(u.v() as nat) && u.v() < p2(bits_precision as nat) && u.nl() == nlimbs_for(bits_precision),
+            Err(e) => true,
+        },
+        // exact outcome: the value limit is 2^bits_precision; a numeral at or above it is reported as Precision when it still fits the
+        // nlimbs_for(bits_precision) allocated limbs and as InputSize when it does not
+        ({ let s = src.spec_bytes(); let r = radix as int; let b = numeral_body(s); let v = seg_val(b, 0, b.len() as int, r);
+           let nl = nlimbs_for(bits_precision);
+           &&& (ret__ is Ok) == (is_numeral(s, r) && v < p2(bits_precision as nat))
+           &&& (ret__ matches Err(DecodeError::Empty)) == (b.len() == 0)
+           &&& (ret__ matches Err(DecodeError::InvalidDigit)) == (b.len() > 0 && !is_numeral(s, r))
+           &&& (ret__ matches Err(DecodeError::Precision)) == (is_numeral(s, r) && p2(bits_precision as nat) <= v < bp(nl))
+           &&& (ret__ matches Err(DecodeError::InputSize)) == (is_numeral(s, r) && v >= bp(nl))
+           &&& p2(bits_precision as nat) <= bp(nl) })
 //@-
 {
         let mut ret = Self::zero_with_precision(bits_precision);
 //@+
         proof {
+            let nl = nlimbs_for(bits_precision);
+            lemma_bp_pow2(nl);
+            if (bits_precision as nat) < 64 * nl { lemma_pow2_strictly_increases(bits_precision as nat, 64 * nl); }
             assert forall|d0: SliceDecodeByLimb, d: SliceDecodeByLimb| #[trigger] dec_frame(d0, d) && d0.len == 0 && (forall|k: int| 0 <= k < d0.limbs@.len() ==> d0.limbs@[k].0 == 0)
                 implies val(d.limbs@, d.limbs@.len()) == val(d.lv(), d.lv().len()) && d.limbs@.len() == d0.limbs@.len() by {
                     assert(d0.spare() =~= d0.limbs@);
@@ -47,10 +65,37 @@ pub fn from_str_radix_with_precision_vartime(
             radix,
             &mut encoding::SliceDecodeByLimb::new(&mut ret.limbs),
         )?;
+//@+
+        assert(ret.limbs@.len() == nlimbs_for(bits_precision));
+        let ghost v = ret.v();
+        proof {
+            // monotonicity of 2^k, stated for the unnamed result of `ret.bits()`
+            assert forall|c: nat| bits_precision <= c && v >= #[trigger] p2(c) implies v >= p2(bits_precision as nat) by {
+                if bits_precision < c { lemma_pow2_strictly_increases(bits_precision as nat, c); }
+            }
+            assert forall|c: nat| c <= bits_precision && v < #[trigger] p2(c) implies v < p2(bits_precision as nat) by {
+                if c < bits_precision { lemma_pow2_strictly_increases(c, bits_precision as nat); }
+            }
+        }
+        assert(is_numeral(src.spec_bytes(), radix as int));
+        assert(v == seg_val(numeral_body(src.spec_bytes()), 0, numeral_body(src.spec_bytes()).len() as int, radix as int));
+//@-
         if bits_precision < ret.bits() {
             return Err(DecodeError::Precision);
         }
         Ok(ret)
+    }
+}
+//@@ end
+//@@ fn src/uint/boxed/encoding.rs | impl BoxedUint | to_string_radix_vartime | body | props C17 C11
+impl BoxedUint {
+pub fn to_string_radix_vartime(&self, radix: u32) -> (ret__: String)
+//@+
+    requires 2 <= radix <= 36, self.limbs@.len() >= 1
+    ensures ret__@ == ascii_chars(canon_numeral(self.v() as nat, radix as int))
+//@-
+{
+        encoding::radix_encode_limbs_to_string(radix, &self.limbs)
     }
 }
 //@@ end
